@@ -24,6 +24,8 @@ package main
 //          - model lines `astore` / `apeers`: fold of add_peer over the announces (+ BEP 32 filter),
 //            order-independent for distinct keys (theorem ra_peers_perm);
 //          - oracle lines stating the same directly.
+//        Floods (srv_api_flood.go, kind ps-flood): hundreds to thousands of accepted announces back to
+//        back while the store is plain / single-P / contended / slow / held / the server closed.
 //
 // Every case runs in a child process (apiContained): a crash of the code under test is an oracle
 // line of the case's own property.
@@ -98,6 +100,16 @@ func apiCases(tier string) []apiCase {
 	cs = append(cs, apiCase{prop: "C11", kind: "ps-wire", mix: "barrier", par: 4, rounds: sc(150, 1500)})
 	cs = append(cs, apiCase{prop: "C11", kind: "ps-wire", mix: "plain", par: 6, rounds: sc(300, 4000)})
 	cs = append(cs, apiCase{prop: "C11", kind: "ps-wire", mix: "barrier", par: 8, rounds: sc(150, 1500)})
+	// floods of hundreds to thousands of accepted announces (srv_api_flood.go); par = hosts
+	for _, mix := range []string{"held", "slow", "contended", "plain", "close"} {
+		cs = append(cs, apiCase{prop: "C11", kind: "ps-flood", mix: mix, par: sc(400, 1200), rounds: sc(5, 30)})
+	}
+	cs = append(cs, apiCase{prop: "C11", kind: "ps-flood", mix: "plain1p", par: sc(1500, 3000), rounds: sc(4, 20)})
+	cs = append(cs, apiCase{prop: "C11", kind: "ps-flood", mix: "held1p", par: sc(300, 3000), rounds: sc(3, 10)})
+	if th {
+		cs = append(cs, apiCase{prop: "C11", kind: "ps-flood", mix: "held", par: 3000, rounds: 10})
+		cs = append(cs, apiCase{prop: "C11", kind: "ps-flood", mix: "contended", par: 3000, rounds: 10})
+	}
 	return cs
 }
 
@@ -141,6 +153,8 @@ func apiEngine(seed uint64, tier string, args []string) {
 			runApiPeersDirect(seed, i, c)
 		case "ps-wire":
 			runApiPeersWire(seed, i, c)
+		case "ps-flood":
+			runApiPeersFlood(seed, i, c)
 		}
 		emit("mend %d => ok", i)
 		out.Flush()
